@@ -4,7 +4,7 @@
    functions read the fields that survive between calls, is read from the source
    by the translator (Gen/OptState.v, Gen/Resets.v). *)
 From Coq Require Import NArith List Bool String.
-From GJ Require Import Gen.OptState Gen.Resets Model.OptState Proofs.OptStateP.
+From GJ Require Import Gen.OptState Gen.Resets Model.OptState Proofs.OptStateP Gen.SliceShape Model.SlicePool Proofs.SlicePoolP.
 Import ListNotations.
 Open Scope string_scope.
 
@@ -58,4 +58,39 @@ Example C11_ex :
   snd (result_inputs the_source c (left_of FDebugDOT 7%N)) =
   ({| fl_html := true; fl_norm := true; fl_unordered := false; fl_debug := true; fl_color := true; fl_context := true; fl_indent := true |},
    [Some 5%N; Some 9%N; Some 1%N; Some 0%N; Some 1%N; Some 2%N; Some 0%N; Some 0%N; Some 0%N]).
+Proof. vm_compute. reflexivity. Qed.
+
+(* ---- decoder side: the pooled working array of every slice decoder (Model/SlicePool.v) ---- *)
+(* slice.go, as the translator read it: every slot beyond the destination's own elements is cleared before the
+   element decoder runs, in Decode and in DecodeStream; newSlice / releaseSlice as modelled *)
+Theorem C11_slice_source_facts : (forall i, slice_clears i = true) /\ slice_pool_as_modelled = true.
+Proof. split; [intro i|]; reflexivity. Qed.
+
+(* For every element type, element decoder (null that leaves a scalar alone, objects that fill some members, ...),
+   destination and JSON array: what the call stores is `spec` -- element i decoded into the destination's own
+   element i or into a zero value -- WHATEVER an earlier call through the same decoder (longer, shorter, failed
+   between two elements) left in the pooled array. *)
+Theorem C11_slice_result_is_spec : forall (A E : Type) (zero : A) (decE : E -> A -> option A) pool dst dcap es,
+  List.length dst <= dcap ->
+  match decode A E zero decE slice_clears pool dst dcap es with Some (out, _) => Some out | None => None end
+  = spec A E zero decE dst es.
+Proof. intros. apply decode_is_spec; [exact (proj1 C11_slice_source_facts)|assumption]. Qed.
+Theorem C11_slice_result_independent_of_pool : forall (A E : Type) (zero : A) (decE : E -> A -> option A) pool1 pool2 dst dcap es,
+  List.length dst <= dcap ->
+  match decode A E zero decE slice_clears pool1 dst dcap es with Some (out, _) => Some out | None => None end =
+  match decode A E zero decE slice_clears pool2 dst dcap es with Some (out, _) => Some out | None => None end.
+Proof. intros. apply decode_independent_of_pool; [exact (proj1 C11_slice_source_facts)|assumption]. Qed.
+Print Assumptions C11_slice_result_independent_of_pool.
+
+(* the clearing is needed: without it, or with it for the first slots only, an earlier call shows through *)
+Theorem C11_slice_no_clearing_refuted :
+  calls (fun _ => false) fresh_pool [([Some 1; Some 2; Some 3], true); ([None; None; None], true)] = [Some [1; 2; 3]; Some [1; 2; 3]].
+Proof. exact no_clearing_refuted. Qed.
+Theorem C11_slice_partial_clearing_refuted :
+  calls (fun i => Nat.ltb i 2) fresh_pool [([Some 1; Some 2; Some 3; Some 4], true); ([None; None; None; None], true)]
+  = [Some [1; 2; 3; 4]; Some [0; 0; 3; 4]].
+Proof. exact partial_clearing_refuted. Qed.
+Example C11_slice_ex :
+  calls slice_clears fresh_pool [([Some 1; Some 2; Some 3; Some 4], false); ([None; Some 7; None; None; None], true)]
+  = [None; Some [0; 7; 0; 0; 0]].
 Proof. vm_compute. reflexivity. Qed.
